@@ -11,7 +11,8 @@ from . import model as M
 from .model import Obj
 
 class Unsupported(Exception): pass
-_BI_IDS = {id(getattr(builtins, n)): n for n in ('dict', 'hash', 'super', 'isinstance', 'issubclass', 'len', 'iter', 'next', 'getattr', 'bool', 'type', 'callable', 'tuple', 'all', 'any', 'list', 'set', 'sorted', 'sum', 'min', 'max', 'frozenset')}
+class _AllRaised(Exception): pass      # an assignment whose every branch raised (the raise is queued in Exec.raised)
+_BI_IDS = {id(getattr(builtins, n)): n for n in ('id', 'dict', 'hash', 'super', 'isinstance', 'issubclass', 'len', 'iter', 'next', 'getattr', 'bool', 'type', 'callable', 'tuple', 'all', 'any', 'list', 'set', 'sorted', 'sum', 'min', 'max', 'frozenset')}
 
 # ---------------------------------------------------------------- values
 class V: pass
@@ -111,7 +112,7 @@ class Exec:
         self.uni = uni; self.scope = dict(scope or {}); self.obls = []; self.name = name
         self.prune = prune; self.call_model = call_model or {}; self._solver = None; self.npaths = 0
         self.inline_repo_funcs = inline_repo_funcs; self.assumptions = set(); self.dropped = set()
-        self._axioms = None; self.nprune = 0; self.raised = []; self.fields_mode = False; self.method_names = {'values', 'items', 'keys', 'get'}
+        self._axioms = None; self.nprune = 0; self.raised = []; self.fields_mode = False; self.method_names = {'values', 'items', 'keys', 'get'}; self.ghost_unhashable = False
     # ------------------------------------------------------------ helpers
     def obl(self, st, kind, goal, where=''):
         self.obls.append(Obl(f'{self.name}.{kind}.{len(self.obls)}', kind, st.pc, goal, where))
@@ -450,7 +451,7 @@ class Exec:
                 except ValueError: pass
         sub = Exec(self.uni, scope, prune=self.prune, call_model=self.call_model, name=self.name + '>' + o.__name__,
                    inline_repo_funcs=self.inline_repo_funcs)
-        sub.obls = self.obls; sub.assumptions = self.assumptions; sub.dropped = self.dropped; sub.raised = self.raised; sub.fields_mode = self.fields_mode; sub.method_names = self.method_names
+        sub.obls = self.obls; sub.assumptions = self.assumptions; sub.dropped = self.dropped; sub.raised = self.raised; sub.fields_mode = self.fields_mode; sub.method_names = self.method_names; sub.ghost_unhashable = self.ghost_unhashable
         return sub.run_function(node, s, args, kwargs, o)
     def bind_params(self, node, s, args, kwargs, defaults_from=None):
         a = node.args; env = {}
@@ -504,9 +505,11 @@ class Exec:
             s = s.assume(M.inst(t, cs[0])).ev('alloc', t)
             return [(s, VObj(t))]
         if isinstance(b, VGhostMap) and name == 'get' and 1 <= len(args) <= 2:
-            present, val = self.ghost_lookup(s, b, args[0]); outs = []
-            for s2, p in self.fork(s, present):
-                outs.append((s2.ev('ghost_get', b.name, self.keycls(args[0])), VObj(val)) if p else (s2, args[1] if len(args) == 2 else VPy(None)))
+            outs = []
+            for s1 in self.ghost_hashable(s, args[0]):
+                present, val = self.ghost_lookup(s1, b, args[0])
+                for s2, p in self.fork(s1, present):
+                    outs.append((s2.ev('ghost_get', b.name, self.keycls(args[0])), VObj(val)) if p else (s2, args[1] if len(args) == 2 else VPy(None)))
             return outs
         if name in ('values', 'items', 'keys') and not args:
             bt = self.obj(b); ok = M.inst(bt, self.uni.const(cabc.Mapping))
@@ -527,6 +530,8 @@ class Exec:
         raise Unsupported(f'method call .{name}(): {where}')
 
     # builtin encodings -------------------------------------------------
+    def b_id(self, s, args, kw, where):
+        return [(s, VInt(M.id_(self.obj(args[0]))))]
     def b_super(self, s, args, kw, where):
         return [(s, VSuper())]
     def b_dict(self, s, args, kw, where):
@@ -612,7 +617,7 @@ class Exec:
             s = s._r(cost=s.cost + M.len_(t), effects=s.effects + (('iterate_all', t, where),))
             return [(s, VObj(M.fresh('linres')))] if True else []
         raise Unsupported('linear builtin over ' + type(src).__name__ + ': ' + where)
-    BUILTINS = {'super': b_super, 'dict': b_dict, 'hash': b_hash, 'isinstance': b_isinstance, 'issubclass': b_issubclass, 'len': b_len, 'iter': b_iter, 'next': b_next,
+    BUILTINS = {'id': b_id, 'super': b_super, 'dict': b_dict, 'hash': b_hash, 'isinstance': b_isinstance, 'issubclass': b_issubclass, 'len': b_len, 'iter': b_iter, 'next': b_next,
                 'getattr': b_getattr, 'bool': b_bool, 'type': b_type, 'callable': b_callable,
                 'all': b_linear, 'any': b_linear, 'tuple': b_linear, 'list': b_linear, 'set': b_linear, 'sorted': b_linear,
                 'sum': b_linear, 'min': b_linear, 'max': b_linear, 'frozenset': b_linear}
@@ -664,20 +669,30 @@ class Exec:
         after = []
         for kind, s, v in body:
             if kind == 'raise':
-                handled = False
+                pending = [s]      # states in which the exception is still unhandled
                 for h in n.handlers:
                     ht = None
                     if h.type is not None:
-                        r = self.eval(h.type, s)
-                        if len(r) != 1: raise Unsupported('handler type forks')
-                        ht = r[0][1]
-                    m = self.exc_matches(v, ht)
-                    if m is None: raise Unsupported(f'cannot decide whether `except {ast.unparse(h.type) if h.type else ""}` catches {v}')
-                    if m:
-                        s2 = s.set('__exc__', v) if v is not None else s
-                        if h.name: s2 = s2.set(h.name, v if v is not None else VPy(None))
-                        after += self.exec_block(h.body, s2); handled = True; break
-                if not handled: after.append((kind, s, v))
+                        r = self.eval(h.type, pending[0]) if pending else []
+                        if pending and len(r) != 1: raise Unsupported('handler type forks')
+                        ht = r[0][1] if r else None
+                    nxt = []
+                    for sp in pending:
+                        m = self.exc_matches(v, ht)
+                        if m is None and isinstance(v, VObj):
+                            # symbolic exception object: the handler catches it iff it is an instance of the handler's class(es)
+                            cond = z3.Or(*[M.inst(v.t, k) for k in self.classes_of(ht)])
+                            branches = self.fork(sp, cond)
+                        elif m is None: raise Unsupported(f'cannot decide whether `except {ast.unparse(h.type) if h.type else ""}` catches {v}')
+                        else: branches = [(sp, bool(m))]
+                        for sb, hit in branches:
+                            if hit:
+                                s2 = sb.set('__exc__', v) if v is not None else sb
+                                if h.name: s2 = s2.set(h.name, v if v is not None else VPy(None))
+                                after += self.exec_block(h.body, s2)
+                            else: nxt.append(sb)
+                    pending = nxt
+                after += [(kind, sp, v) for sp in pending]
             elif kind == 'next' and n.orelse:
                 after += self.exec_block(n.orelse, s)
             else: after.append((kind, s, v))
@@ -689,8 +704,10 @@ class Exec:
     def s_Assign(self, n, st):
         outs = []
         for s, v in self.eval(n.value, st):
-            for tgt in n.targets:
-                s = self.assign(s, tgt, v)
+            try:
+                for tgt in n.targets:
+                    s = self.assign(s, tgt, v)
+            except _AllRaised: continue
             outs.append(('next', s, None))
         return outs
     def s_AnnAssign(self, n, st):
@@ -723,6 +740,9 @@ class Exec:
             cur = dict(s.hget(('dict', b.rid), ())); cur[k.o] = v
             return s.hset(('dict', b.rid), tuple(cur.items()))
         if isinstance(b, VGhostMap):
+            hs = self.ghost_hashable(s, k)
+            if not hs: raise _AllRaised()
+            s = hs[0]
             stores = s.hget(('ghost', b.name), ())
             return s.hset(('ghost', b.name), stores + ((self.keycls(k), v),)).ev('ghost_store', b.name, self.keycls(k), v, k)
         raise Unsupported('item assignment on ' + type(b).__name__ + ': ' + where)
@@ -732,6 +752,14 @@ class Exec:
     def ghost_base(self, name, arity):
         has = z3.Function(f'{name}_has{arity}', *([Obj] * arity), z3.BoolSort()); get = z3.Function(f'{name}_get{arity}', *([Obj] * arity), Obj)
         return has, get
+    def ghost_hashable(self, s, k):
+        """dict operations raise TypeError for an unhashable key: -> states in which the key is hashable (the raising branch is queued)"""
+        if not self.ghost_unhashable or isinstance(k, VTup) and all(isinstance(c, (VInt, VPy)) for c in k.items): return [s]
+        kt = self.obj(k); outs = []
+        for s2, h in self.fork(s, M.hashable(kt)):
+            if h: outs.append(s2)
+            else: self.raised.append((s2.ev('unhashable_key'), VExc(TypeError)))
+        return outs
     def ghost_lookup(self, s, g, k):
         """-> (present: z3 Bool, value: z3 Obj term)"""
         kc = self.keycls(k); has, get = self.ghost_base(g.name, len(kc))
